@@ -128,6 +128,10 @@ func ErrorWrap(src string, pos int, code types.ParsingError) error {
 
 //go:noinline
 func error_wrap_heap(src string, pos int, code types.ParsingError) *SyntaxError {
+	/* the native skippers may stop a few bytes past the end of a truncated input */
+	if pos > len(src) {
+		pos = len(src)
+	}
 	return &SyntaxError{
 		Pos:  pos,
 		Src:  src,
